@@ -170,12 +170,12 @@ End Clauses.
 (* ------------------------------------------------------------------ the models as the source is now *)
 Definition c15_req_fix : ReqModel.rfix :=
   ReqModel.mkFix C04_REQ_CLONE_FIXED C04_REQ_CANCEL_SEND_FIXED C04_REQ_STASH_FIXED C04_REQ_RDCLR_FIXED.
-Definition c15_rep_fix : RepModel.pfix := RepModel.mkPfix C04_REP_RCLOSE_FIXED C04_REP_NBSEND_FIXED C04_REP_SAIO_FIXED.
-Definition c15_mq_fix : XReqModel.mqfix := XReqModel.mkMqfix C04_MSGQ_NB_FIXED C04_MSGQ_RESIZE_FIXED.
+Definition c15_rep_fix : RepModel.pfix := RepModel.mkPfix C04_REP_RCLOSE_FIXED C04_REP_NBSEND_FIXED C04_REP_SAIO_FIXED C04_REP_WBUSY_FIXED.
+Definition c15_mq_fix : XReqModel.mqfix := XReqModel.mkMqfix C04_MSGQ_NB_FIXED C04_MSGQ_RESIZE_FIXED C04_MSGQ_GET_RUNS_PUTQ.
 Definition c15_resp_fix : RespondModel.resp_fix :=
   RespondModel.mkRfix C07_RESP_NB_FIXED C07_RESP_WBUSY_FIXED C07_RESP_RCLOSE_FIXED C07_RESP_SBUSY_FIXED
                       C07_RESP_WOTHER_FIXED C07_RESP_WSTALE_FIXED.
-Definition c15_xs_fix : XSurveyModel.mq_fix := XSurveyModel.mkMqfix C07_MSGQ_NB_FIXED C07_MSGQ_RESIZE_FIXED.
+Definition c15_xs_fix : XSurveyModel.mq_fix := XSurveyModel.mkMqfix3 C07_MSGQ_NB_FIXED C07_MSGQ_RESIZE_FIXED C07_MSGQ_GET_RUNS_PUTQ.
 
 Definition c15_req_step := ReqModel.req_step c15_req_fix.
 Definition c15_rep_step := RepModel.rep_step c15_rep_fix.
@@ -229,7 +229,7 @@ Definition c15_flags : list bool :=
    C05_SUB_UNSUB_CLEARS_POLL; C05_MSGQ_GET_TRIES_FIRST; C05_MSGQ_RESIZE_NOTIFIES; C07_SURV_NBRECV_FIXED; C07_RESP_NB_FIXED;
    C07_RESP_WBUSY_FIXED; C07_RESP_RCLOSE_FIXED; C07_RESP_SBUSY_FIXED; C07_RESP_WOTHER_FIXED; C07_RESP_WSTALE_FIXED;
    C07_MSGQ_NB_FIXED; C07_MSGQ_RESIZE_FIXED; C08_PAIR0_STOP_WRITABLE_FIXED; C08_PAIR1_STOP_WRITABLE_FIXED; BUS_SEND_NO_AIO_START;
-   C03_BUS_START_BEFORE_DETACH].
+   C03_BUS_START_BEFORE_DETACH; C04_REP_WBUSY_FIXED; C04_MSGQ_GET_RUNS_PUTQ; C07_MSGQ_GET_RUNS_PUTQ].
 
 (* ------------------------------------------------------------------ src/core/pollable.c
    p_raised is the level flag; p_fds is -1 until the first nni_pollable_getfd, then
@@ -293,7 +293,9 @@ Inductive plpc :=
 | PcClear2            (* loaded p_fds <> -1; about to drain *)
 | PcGet1              (* loaded p_fds = -1 and opened a private pair; about to cas *)
 | PcGet2              (* cas succeeded; about to load p_raised *)
-| PcGet3.             (* p_raised was set; about to write the token *)
+| PcGet3              (* p_raised was set; about to write the token *)
+| PcGetA (r : bool)   (* repaired getfd: loaded p_raised = r; about to write (r) / drain (not r) *)
+| PcGetB (r : bool).  (* repaired getfd: acted on r; about to load p_raised again *)
 
 Record plconc := mkPlc { pc_p : pollable; pc_mut : plpc; pc_get : plpc }.   (* the mutator thread, the getfd thread *)
 
@@ -302,7 +304,11 @@ Inductive plact := ActMut (o : plop) | ActMutStep | ActGet | ActGetStep.
 Definition sig_set (p : pollable) (b : bool) : pollable :=
   mkPl (plb_raised p) (match plb_fd p with Some _ => Some b | None => None end).
 
-Definition plb_astep (c : plconc) (a : plact) : plconc :=
+(* [gfix] = nni_pollable_getfd with the proposed repair: after publishing the new descriptor it brings it in
+   line with the flag and repeats while the flag changed under it:
+     raised = load(p_raised); for (;;) { raised ? write(wfd) : drain(rfd); now = load(p_raised); if (now == raised) break; raised = now; }
+   false = the source as it is: a single load, then a write if it was set *)
+Definition plb_astep (gfix : bool) (c : plconc) (a : plact) : plconc :=
   let p := pc_p c in
   match a with
   | ActMut PlRaise =>
@@ -335,14 +341,27 @@ Definition plb_astep (c : plconc) (a : plact) : plconc :=
                   | None => mkPlc (mkPl (plb_raised p) (Some false)) (pc_mut c) PcGet2     (* cas -1 -> fresh pair (empty) *)
                   | Some _ => mkPlc p (pc_mut c) PcIdle                                     (* someone beat us (one getter: unreachable) *)
                   end
-      | PcGet2 => mkPlc p (pc_mut c) (if plb_raised p then PcGet3 else PcIdle)
+      | PcGet2 => if gfix then mkPlc p (pc_mut c) (PcGetA (plb_raised p))
+                  else mkPlc p (pc_mut c) (if plb_raised p then PcGet3 else PcIdle)
       | PcGet3 => mkPlc (sig_set p true) (pc_mut c) PcIdle
+      | PcGetA r => mkPlc (sig_set p r) (pc_mut c) (PcGetB r)
+      | PcGetB r => mkPlc p (pc_mut c) (if Bool.eqb (plb_raised p) r then PcIdle else PcGetA (plb_raised p))
       | _ => c
       end
   end.
-Fixpoint plb_arun (c : plconc) (l : list plact) : plconc :=
-  match l with [] => c | a :: r => plb_arun (plb_astep c a) r end.
+Fixpoint plb_arun (gfix : bool) (c : plconc) (l : list plact) : plconc :=
+  match l with [] => c | a :: r => plb_arun gfix (plb_astep gfix c a) r end.
 Definition plc_init : plconc := mkPlc plb_init PcIdle PcIdle.
+(* the schedule harness/wb_c15.c forces with its `window clear` / `window raise` commands: a complete clear (raise)
+   of another thread exactly between getfd's first load of p_raised and what follows it; then (clear case) one
+   more clear.  Run with the form of getfd the source has (Gen/Consts.v, C15_POLLABLE_GETFD_SYNC). *)
+Definition window_acts (clear : bool) : list plact :=
+  (if clear then [ActMut PlRaise; ActMutStep; ActMutStep] else []) ++ [ActGet; ActGetStep; ActGetStep] ++
+  [ActMut (if clear then PlClear else PlRaise); ActMutStep; ActMutStep] ++
+  [ActGetStep; ActGetStep; ActGetStep; ActGetStep; ActGetStep; ActGetStep].
+Definition c15_window (clear : bool) : pollable * pollable :=
+  let c := plb_arun C15_POLLABLE_GETFD_SYNC plc_init (window_acts clear) in
+  (pc_p c, pc_p (plb_arun C15_POLLABLE_GETFD_SYNC c [ActMut PlClear; ActMutStep; ActMutStep])).
 Definition plc_quiescent (c : plconc) : Prop := pc_mut c = PcIdle /\ pc_get c = PcIdle.
 
 (* ------------------------------------------------------------------ src/nng.c: nng_sendmsg / nng_recvmsg /
